@@ -268,7 +268,8 @@ func (a *activityManager) publishActivityEvent(event *client.ActivityStreamEvent
 	ctx, cancel := context.WithTimeout(context.Background(), a.config.ActivityStream.PublishTimeout)
 	defer cancel()
 
-	_, err = a.api.Publish(ctx, &client.PublishRequest{
+	// The event is published by the server itself: no client authorization.
+	_, err = a.api.publishInternal(ctx, &client.PublishRequest{
 		Value:     data,
 		Stream:    activityStream,
 		AckPolicy: a.config.ActivityStream.PublishAckPolicy,
